@@ -130,6 +130,21 @@ def make_case(rng):
     c["seed"] = rng.randrange(2 ** 31)
     c["separate_data"] = rng.random() < 0.5
     c["alias_seed"] = rng.randrange(2 ** 30)
+    # a coarse-grained run: the trajectory's own system (the grid) then differs from the system of its script (the graph)
+    sp = c["desc"]["space"]
+    c["cgmap"] = None
+    if c["kind"] == "trajectory" and sp["type"] == "grid" and rng.random() < 0.6:
+        sp["per"] = [False, False, False]          # coarse-graining is defined for reflecting grids
+        n = sp["w"] * sp["h"] * sp["d"]
+        im = list(range(n))
+        for a in range(n):                    # merge the first pair of cells sharing an environment, if any
+            bs = [b for b in range(a + 1, n) if sp["env"][b] == sp["env"][a]]
+            if bs:
+                b = bs[0]
+                im = [v if v != b else a for v in im]
+                im = [sorted(set(im)).index(v) for v in im]
+                break
+        c["cgmap"] = im
     return c
 
 
@@ -153,7 +168,7 @@ def build(strengths, c):
     from strengths.simulate import simulate_script
     script.init_state_processing = "none"
     script.sampling_policy = "on_t_sample"
-    return simulate_script(script, engine=engine_build.engine("euler"))
+    return simulate_script(script, engine=engine_build.engine("euler"), cgmap=c.get("cgmap"))
 
 
 def observe(c):
@@ -425,7 +440,7 @@ def check(run):
     items = build_items(cases, run)
     for it in items:
         c = it["case"]
-        run.count("kind:" + c["kind"])
+        run.count("kind:" + c["kind"] + (":coarse_grained" if c.get("cgmap") else ""))
         run.count("space:" + c["desc"]["space"]["type"])
         for label, fp in it["obs"]["variants"]:
             run.count("variant:" + label.split(":")[0])
